@@ -139,6 +139,17 @@ def run(prop, tier, seed, scratch, replay, t0):
                             "last validated against; this run's correspondence is what re-validates them"}
     except Exception as ex:
         modelled["note"] = "model map unavailable: %r" % ex
+    if cov is not None and os.environ.get("VERIF_COV_DUMP"):
+        import glob
+        os.makedirs(os.environ["VERIF_COV_DUMP"], exist_ok=True)
+        dump = {}
+        for path in glob.glob(os.path.join(common.repo_dir(), "gffutils", "*.py")):
+            try:
+                _, stmts, _, missing, _ = cov.analysis2(path)
+                dump[os.path.basename(path)] = {"statements": stmts, "missing": missing}
+            except Exception:
+                pass
+        json.dump(dump, open(os.path.join(os.environ["VERIF_COV_DUMP"], prop + ".json"), "w"))
     anchored = {}
     for rel in anchors:
         path = os.path.join(common.repo_dir(), rel)
